@@ -13,8 +13,9 @@ CONFIGS = {
     "q": [("c_2dec_w", dict(progs=[[A(-1)], [A(-1)], [W()]], init={"V0": 2}, V0=2)),
           ("c_dec_wt", dict(progs=[[A(-1), VAL], [W(1), VAL]], init={"V0": 1}, V0=1, MaxNow=1)),
           ("c_updown", dict(progs=[[A(1), A(-1), A(-1)], [W(), A(0)]], init={"V0": 1}, V0=1)),
-          ("c_zero", dict(progs=[[W(), W(1)], [VAL, A(0)]], init={"V0": 0}, V0=0, MaxNow=1))],
-    "t": [("c_2w", dict(progs=[[A(-1)], [W()], [W(1)]], init={"V0": 1}, V0=1, MaxNow=1)),
+          ("c_zero", dict(progs=[[W(), W(1)], [VAL, A(0)]], init={"V0": 0}, V0=0, MaxNow=1)),
+          ("c_2w", dict(progs=[[A(-1)], [W()], [W(1)]], init={"V0": 1}, V0=1, MaxNow=1))],
+    "t": [
           ("c_3dec", dict(progs=[[A(-1), VAL], [A(-1)], [A(-1), W()]], init={"V0": 3}, V0=3))],
 }
 
@@ -23,7 +24,8 @@ def main(tier, replay=None):
     run = Run("C10", tier, "model_checking")
     exe = build("h_l2")
     if replay:
-        res = mulib.run_harness_env(exe, ["replay", replay, REPLAYS], dict(os.environ, VERIF_PROP="C10"))
+        rexe, renv = replay_target(replay, "h_l2")
+        res = mulib.run_harness_env(rexe, ["replay", replay, REPLAYS], dict(os.environ, VERIF_PROP="C10", **renv))
         for v in res["viols"]:
             run.violation("%s|%s|replay" % (v[0], v[1]), replay, v[5])
         return run.finish()
